@@ -7,6 +7,10 @@ CONSTANTS
   FailInner <- FailF
   WithNoResult = TRUE
   WithExtract = TRUE
+  MaxPause = 0
+  MaxChain = 0
+  InnerValues <- NoInner
+  InnerExcs <- NoInner
   MaxLen = 3
 CONSTRAINT ExportC
 INVARIANT Trichotomy
